@@ -652,3 +652,35 @@ def minimisation_rule(res, fx):
         res.ok(r, 'analyze: clears seen[] for all of analyze_toclear at its end')
     else:
         res.bad(r, 'analyze-marks-leak', fx.loc(an), 'CoreSMTSolver::analyze no longer clears the seen[] marks of analyze_toclear before returning')
+
+
+# ------------------------------------------------------------------ difference logic: label-correcting searches re-queue improved vertices
+def requeue_rule(res, fx):
+    r = res.rule('label-correcting-requeue', 'in the shortest-path searches of the difference-logic solver (STPGraphManager::dfsSearch, STPModel::bellmanFord) every block that '
+                 'improves the distance label of a vertex also puts that vertex back on the work list: otherwise vertices expanded from it keep too-long distances, '
+                 'consequences are missed and a negative cycle is accepted (the STP solver has no other consistency check)', floor=3)
+    n_blocks = 0
+    for f in sorted(fx.F.values(), key=lambda f: f['name']):
+        short = f['name'].split('::')[-1]
+        if short not in ('dfsSearch', 'bellmanFord') or '/stpsolver/' not in f['file']:
+            continue
+        for blk in (b for b in walk(f['body']) if b.get('k') == 'seq'):
+            items = [x for x in blk['c'] if isinstance(x, dict)]
+            relax = []
+            for st in items:
+                if st.get('k') != 'e':
+                    continue
+                aa = as_assign(see_through(st['e'])) if isinstance(see_through(st['e']), dict) else None
+                if aa and 'cost' in str(aa[1]) and (path_of(aa[0]) or '').endswith('[]'):
+                    relax.append(st)
+            if not relax:
+                continue
+            n_blocks += 1
+            pushes = [x for st in items for x in walk(st) if x.get('k') == 'call' and mname(x) in ('push', 'push_back', 'emplace') and (recv_path(x) or '') in ('open', 'queue', 'worklist')]
+            if pushes:
+                res.ok(r, '%s line %s: label improved and vertex re-queued' % (f['name'].replace('opensmt::', ''), relax[0].get('ln')))
+            else:
+                res.bad(r, 'relaxation-without-requeue:%s' % short, fx.loc(f, relax[0].get('ln')), '%s improves a distance label (line %s) without putting the vertex back on the work list: '
+                        'distances of vertices already expanded from it stay too long' % (f['name'].replace('opensmt::', ''), relax[0].get('ln')))
+    if n_blocks < 3:
+        raise AnalysisBroken('label-correcting-requeue: expected >= 3 relaxation blocks in the STP searches, found %d' % n_blocks)
